@@ -61,6 +61,23 @@ struct act_for
    {};
 };
 
+// a reader handing out one byte per call: over a buffer_input the rule has to ask for every byte it reads
+struct mem_reader
+{
+   const char* p;
+   std::size_t left;
+
+   std::size_t operator()( char* buffer, const std::size_t length )
+   {
+      if( ( length == 0 ) || ( left == 0 ) ) {
+         return 0;
+      }
+      *buffer = *p++;
+      --left;
+      return 1;
+   }
+};
+
 template< typename RS, typename Eol, pegtl::apply_mode A, pegtl::rewind_mode M >
 static void observe( const char* tag, const std::string& data, std::string& out )
 {
@@ -83,6 +100,21 @@ static void observe( const char* tag, const std::string& data, std::string& out 
       byte = p.byte;
       line = p.line;
       col = p.column;
+   }
+   if constexpr( A == pegtl::apply_mode::nothing ) {
+      // the same call over a buffer input (capacity: the whole text): same result and position, or result code 7
+      pegtl::buffer_input< mem_reader, Eol, std::string, 1 > bin( "c16", data.size() + 16, mem_reader{ buf, data.size() } );
+      int rb = 2;
+      try {
+         rb = pegtl::normal< RS >::template match< A, M, pegtl::nothing, pegtl::normal >( bin ) ? 1 : 0;
+      }
+      catch( ... ) {
+         rb = 2;
+      }
+      const auto pb = bin.position();
+      if( ( rb != r ) || ( pb.byte != byte ) || ( pb.line != line ) || ( pb.column != col ) ) {
+         r = 7;
+      }
    }
    std::free( buf );
    char b[ 160 ];
